@@ -2,7 +2,7 @@
    instance (typed records), the dicts the real save / memo_serialize produced and the object graph of the
    instance the real _load returned; the functions below evaluate the model on them (vm_compute). *)
 From Coq Require Import ZArith List Bool String Ascii.
-From LV Require Import Ser.Value Gen.SerializeFields Ser.Serialize.
+From LV Require Import Ser.Value Gen.SerializeFields Ser.Serialize Ser.SerializeDec.
 Import ListNotations.
 Local Open Scope string_scope.
 Local Open Scope list_scope.
@@ -71,27 +71,19 @@ Definition inst_eqb (a b : lark_inst) : bool :=
   list_eqb rule_eqb (li_rules a) (li_rules b) &&
   list_eqb (pair_eqb String.eqb value_eqb) (li_options a) (li_options b).
 
-(* hypotheses of the round-trip theorems, checked on every exported instance *)
+(* hypotheses of the round-trip theorems, checked on every exported instance: [wf_inst_b] (sound for [wf_inst],
+   Ser/SerializeDec_proofs.v) and uniqueness of the dict keys of the table *)
 Fixpoint nodup_by {A} (e : A -> A -> bool) (l : list A) : bool :=
   match l with
   | [] => true
   | x :: r => negb (existsb (e x) r) && nodup_by e r
   end.
-Definition mentry_eqb (a b : mentry) : bool :=
-  match a, b with
-  | MTerm t, MTerm u => termdef_eqb t u
-  | MRule r, MRule s => rule_eqb r s
-  | _, _ => false
-  end.
-(* objects with the same dictionary key are the same object *)
-Definition keys_unique_b (l : list mentry) : bool :=
-  forallb (fun a => forallb (fun b => implb (mentry_keyeqb a b) (mentry_eqb a b)) l) l.
 Definition table_wf_b (t : table) : bool :=
   nodup_by Z.eqb (map fst (t_states t)) &&
   forallb (fun sa => nodup_by String.eqb (map fst (snd sa))) (t_states t) &&
   nodup_by String.eqb (map fst (t_start t)) && nodup_by String.eqb (map fst (t_end t)).
 Definition inst_wf_b (i : lark_inst) : bool :=
-  keys_unique_b (entries i) && table_wf_b (fe_parser (li_parser i)).
+  wf_inst_b i && table_wf_b (fe_parser (li_parser i)).
 
 Inductive ccase :=
 (* the real Lark.save(f, excl) wrote {'data': data, 'memo': mj} for the instance i *)
